@@ -784,7 +784,9 @@ func makeUpdateStrategyMap(resources *dynamicdiscovery.ResourceMap, dc *v1alpha1
 func parentQueueKey(obj interface{}) (string, error) {
 	switch o := obj.(type) {
 	case cache.DeletedFinalStateUnknown:
-		return o.Key, nil
+		// The tombstone's own key is only namespace/name; build the full parent
+		// key from the object it carries so that sync() can parse it back.
+		return parentQueueKey(o.Obj)
 	case cache.ExplicitKey:
 		return string(o), nil
 	case *unstructured.Unstructured:
